@@ -454,7 +454,16 @@ func (sp *ServerPool) handle(ctx *context.Context, mirror bool) string {
 		if sp.timeout > 0 {
 			var cancel stdcontext.CancelFunc
 			stdctx, cancel = stdcontext.WithTimeout(stdctx, sp.timeout)
-			defer cancel()
+			defer func() {
+				// The body of a stream response is read after this
+				// function returns, cancel the context when the body
+				// is closed, otherwise the body would be cut.
+				if spCtx.resp != nil && spCtx.resp.IsStream() && spCtx.respBody != nil {
+					spCtx.respBody.OnClose(func() { cancel() })
+					return
+				}
+				cancel()
+			}()
 		}
 
 		// this function could be called more than once, and these
